@@ -36,6 +36,21 @@ SELFTEST = [
 NEXT = r"<[^()]*? as std::iter::Iterator>::next\(it\)@Some\.0"
 
 
+def resolve_buffer(cx, e):
+    """Where a byte buffer value is built: (canon, body, local, via) — in the same body when `e` is a local, or one level down when it is
+    the result of a crate-local helper whose return value is a local buffer (helper parameters are bound to the call's arguments, so its
+    expressions read in the caller's frame)."""
+    if e[0] == "local":
+        return cx, cx.b, e[1], None
+    if e[0] == "call":
+        hc = cx.helper(e)
+        if hc is not None:
+            rets = hc.returns()
+            if len(rets) == 1 and rets[0][1][0] == "local":
+                return hc, hc.b, rets[0][1][1], e
+    return None
+
+
 def check(ctx):
     prog = ctx.prog
     d = ctx.body(G, r"protocol::GossipsubCodec as asynchronous_codec::Decoder>::decode$")
@@ -219,6 +234,7 @@ def check(ctx):
             ctx.ob("verify", "true only from PublicKey::verify", ok, s.loc(), "return value = %s" % render(e)[:100])
     ctx.ob("verify", "floor:failure returns", n_false >= 1, nontrivial=False, msg="%d `return false`" % n_false)
     SRC = r"libp2p_identity::PeerId::from_bytes\(\$1\.from@Some\.0\)"
+    vconst = set()
     for s in ver:
         a = cv.args(s)
         key = render(a[0])
@@ -229,40 +245,47 @@ def check(ctx):
                "source == to_peer_id(key) for the key passed to verify (%s)" % key)
         ctx.ob("verify", "verified signature is message.signature", render(a[2]) == "$1.signature@Some.0", s.loc(), render(a[2])[:120])
         # the verified bytes
-        sbl = a[1][1] if a[1][0] == "local" else None
-        ctx.ob("verify", "floor:verified bytes are a local buffer", sbl is not None, s.loc(), render(a[1])[:80], nontrivial=False)
-        if sbl is None:
+        rb = resolve_buffer(cv, a[1])
+        ctx.ob("verify", "floor:verified bytes are a buffer built here or in a crate-local helper", rb is not None, s.loc(), render(a[1])[:80], nontrivial=False)
+        if rb is None:
             continue
-        init = cv.init(sbl)
+        cz, zb, sbl, via = rb
+        zw = "%s:%d" % (zb.file, zb.line)
+        bufr = render(cz.x(("local", sbl, None)))
+        init = cz.init(sbl)
+        vconst |= {x[1] for x in mir.walk(init) if x[0] == "namedconst"} if init else set()
         pre = [x for x in mir.walk(init)] if init else []
         cpath = [x[1] for x in pre if x[0] == "namedconst"]
         okp = init is not None and init[0] == "call" and re.search(r"slice::to_vec$|Vec::from$|borrow::ToOwned", strip_generics(init[1])) is not None and len(cpath) == 1
-        ctx.ob("verify", "signature_bytes starts with SIGNING_PREFIX", okp, vw, render(init)[:120] if init else "no single initialiser")
-        muts = [m for m in v.call_sites() if m.term["args"] and render(cv.args(m)[0]) == render(a[1]) and m != s and not lib_gs2.TRANSPARENT.search(strip_generics(v.call_name(m.term)))]
-        ctx.ob("verify", "signature_bytes is only extended once", len(muts) == 1 and re.search(r"extend_from_slice$|Extend>::extend$|append$", strip_generics(v.call_name(muts[0].term))) is not None, vw, str([strip_generics(v.call_name(m.term)) for m in muts]))
+        ctx.ob("verify", "signature_bytes starts with SIGNING_PREFIX", okp, zw, render(init)[:120] if init else "no single initialiser")
+        muts = [m for m in zb.call_sites() if m.term["args"] and render(cz.args(m)[0]) == bufr and not (zb is v and m == s) and not lib_gs2.TRANSPARENT.search(strip_generics(zb.call_name(m.term)))]
+        ctx.ob("verify", "signature_bytes is only extended once", len(muts) == 1 and re.search(r"extend_from_slice$|Extend>::extend$|append$", strip_generics(zb.call_name(muts[0].term))) is not None, zw, str([strip_generics(zb.call_name(m.term)) for m in muts]))
         for m in muts[:1]:
-            app = cv.args(m)[1]
+            app = cz.args(m)[1]
             okm = app[0] == "call" and re.search(r"encode_to_vec$", strip_generics(app[1])) is not None and app[2] and app[2][0][0] == "local"
             ctx.ob("verify", "appended bytes are the encoded cleared message", okm, m.loc(), render(app)[:120])
-            lib.precedes(ctx, "verify", "prefix+message assembled before verification", v, [m.bb], [s.bb], "extend precedes PublicKey::verify", m.loc())
+            if zb is v:
+                lib.precedes(ctx, "verify", "prefix+message assembled before verification", v, [m.bb], [s.bb], "extend precedes PublicKey::verify", m.loc())
+            else:
+                ctx.ob("verify", "prefix+message assembled before verification", zb.must_pass_nodes([0], zb.return_blocks(), [m.bb]), m.loc(), "the helper extends the buffer on every path before returning it")
             if not okm:
                 continue
             ml = app[2][0][1]
             enc_bb = app[3]
-            mi = cv.init(ml)
-            ctx.ob("verify", "the encoded message is a copy of the received message", mi is not None and render(mi) == "$1", vw, render(mi)[:100] if mi else "")
+            mi = cz.init(ml)
+            ctx.ob("verify", "the encoded message is a copy of the received message", mi is not None and render(mi) == "$1", zw, render(mi)[:100] if mi else "")
             cleared = {}
-            for x in v.defs.get((ml, "partial"), []):
+            for x in zb.defs.get((ml, "partial"), []):
                 if x[0] != "stmt":
                     continue
                 fld = [pr["n"] for pr in x[4].get("pr", ()) if pr["k"] == "field"]
-                cleared.setdefault(fld[-1] if fld else "?", []).append((mir.Site(v, x[1], x[2]), cv.r(v.rvalue_expr(x[3]))))
+                cleared.setdefault(fld[-1] if fld else "?", []).append((mir.Site(zb, x[1], x[2]), cz.r(zb.rvalue_expr(x[3]))))
             for f in ("signature", "key"):
                 ws = cleared.get(f, [])
-                ok = bool(ws) and all(r == "std::option::Option::None{}" for _, r in ws) and enc_bb not in v.reachable([0], blocked_nodes=lib.bbs([w for w, _ in ws]))
-                ctx.ob("verify", "signature and key are cleared before encoding", ok, ws[0][0].loc() if ws else vw, "copy.%s = None on every path to encode_to_vec: %s" % (f, ok))
+                ok = bool(ws) and all(r == "std::option::Option::None{}" for _, r in ws) and enc_bb not in zb.reachable([0], blocked_nodes=lib.bbs([w for w, _ in ws]))
+                ctx.ob("verify", "signature and key are cleared before encoding", ok, ws[0][0].loc() if ws else zw, "copy.%s = None on every path to encode_to_vec: %s" % (f, ok))
             other = sorted(set(cleared) - {"signature", "key"})
-            ctx.ob("verify", "no signed field is altered before encoding", not other, vw, "other fields of the copy written: %s" % other)
+            ctx.ob("verify", "no signed field is altered before encoding", not other, zw, "other fields of the copy written: %s" % other)
         # key selection
         if a[0][0] == "local":
             kd = [r for _, r in cv.defs(a[0][1])]
@@ -270,11 +293,6 @@ def check(ctx):
             from_src = [x for x in kd if re.search(r"try_decode_protobuf\(.*libp2p_identity::PeerId::to_bytes\(%s@Ok\.0\).*\)@Ok\.0$" % SRC, x) and "$1.key" not in x]
             ctx.ob("verify", "key is message.key if it decodes, else the key inlined in the source id",
                    len(kd) >= 1 and len(from_key) + len(from_src) == len(kd) and len(from_src) >= 1, vw, str(kd)[:400])
-    vconst = set()
-    for s in ver:
-        a = cv.args(s)
-        if a[1][0] == "local" and cv.init(a[1][1]):
-            vconst |= {x[1] for x in mir.walk(cv.init(a[1][1])) if x[0] == "namedconst"}
     # ---- decode calls verify_signature on the loop's message
     vs_calls = d.call_sites(r"protocol::GossipsubCodec::verify_signature$")
     ctx.floor("verify", "verify_signature call in decode", vs_calls, 1, exact=True)
@@ -293,17 +311,21 @@ def check(ctx):
     try:
         sconst = set()
         signed = {}
+        cb0, b0 = cb, b
         for s in sg:
+            cb, b = cb0, b0
             a = cb.args(s)
             KP = r"^\$1\.\w+@Signing\.\w+$"
             ctx.ob("sign", "signs with the configured keypair", re.match(KP, render(a[0])) is not None, s.loc(), render(a[0])[:100])
-            sl = a[1][1] if a[1][0] == "local" else None
-            ctx.ob("sign", "floor:signed bytes are a local buffer", sl is not None, s.loc(), render(a[1])[:80], nontrivial=False)
-            if sl is None:
+            rb = resolve_buffer(cb, a[1])
+            ctx.ob("sign", "floor:signed bytes are a buffer built here or in a crate-local helper", rb is not None, s.loc(), render(a[1])[:80], nontrivial=False)
+            if rb is None:
                 continue
+            cb, b, sl, via = rb
+            bufr = render(cb.x(("local", sl, None)))
             init = cb.init(sl)
             sconst |= {x[1] for x in mir.walk(init) if x[0] == "namedconst"} if init else set()
-            muts = [m for m in b.call_sites() if m.term["args"] and render(cb.args(m)[0]) == render(a[1]) and m != s and not lib_gs2.TRANSPARENT.search(strip_generics(b.call_name(m.term)))]
+            muts = [m for m in b.call_sites() if m.term["args"] and render(cb.args(m)[0]) == bufr and not (b is b0 and m == s) and not lib_gs2.TRANSPARENT.search(strip_generics(b.call_name(m.term)))]
             ctx.ob("sign", "signed bytes = prefix extended exactly once", init is not None and len(muts) == 1 and re.search(r"extend_from_slice$|Extend>::extend$|append$", strip_generics(b.call_name(muts[0].term))) is not None, bw,
                    "init %s; mutators %s" % (render(init)[:80] if init else None, [strip_generics(b.call_name(m.term)) for m in muts]))
             for m in muts[:1]:
@@ -311,7 +333,10 @@ def check(ctx):
                 aggs = [x for x in mir.walk(app) if x[0] == "agg" and x[1] == "adt" and re.search(r"gossipsub_pb::Message$", strip_generics(x[2]))]
                 ok = len(aggs) == 1 and app[0] == "call" and re.search(r"encode_to_vec$", strip_generics(app[1])) is not None
                 ctx.ob("sign", "appended bytes are an encoded proto::Message", ok, m.loc(), render(app)[:100])
-                lib.precedes(ctx, "sign", "prefix+message assembled before signing", b, [m.bb], [s.bb], "extend precedes Keypair::sign", m.loc())
+                if b is b0:
+                    lib.precedes(ctx, "sign", "prefix+message assembled before signing", b, [m.bb], [s.bb], "extend precedes Keypair::sign", m.loc())
+                else:
+                    ctx.ob("sign", "prefix+message assembled before signing", b.must_pass_nodes([0], b.return_blocks(), [m.bb]), m.loc(), "the helper extends the buffer on every path before returning it")
                 if aggs:
                     f = dict((k, render(x)) for k, x in aggs[0][4])
                     ctx.ob("sign", "signed message has signature: None and key: None", f.get("signature") == "std::option::Option::None{}" and f.get("key") == "std::option::Option::None{}", m.loc(),
@@ -322,6 +347,7 @@ def check(ctx):
                     signed["seq"] = mseq.group(1) if mseq else None
                     ctx.ob("sign", "signed `from` is a peer id, signed seqno a big-endian number", mfrom is not None and mseq is not None, m.loc(), "from=%s seqno=%s" % (f.get("from", "")[:80], f.get("seqno", "")[:100]))
                     ctx.ob("sign", "signed data / topic are the published data / topic", f.get("data") == "std::option::Option::Some{0: $3}" and re.match(r"^libp2p_gossipsub::topic::TopicHash::into_string\(\$2\)$", f.get("topic", "")) is not None, m.loc(), "data=%s topic=%s" % (f.get("data", "")[:60], f.get("topic", "")[:80]))
+        cb, b = cb0, b0
         # the RawMessage published on the Signing arm carries what was signed
         signing = [(s, e) for s, e in cb.returns() if "Keypair::sign(" in render(e) and any(x[0] == "agg" and x[1] == "adt" and re.search(r"types::RawMessage$", strip_generics(x[2])) for x in mir.walk(e))]
         ctx.floor("sign", "signed RawMessage", signing, 1, exact=True)
